@@ -145,15 +145,16 @@ def check_riemann(case):
     gen = 'num_x_pts' in P
     x = np.asarray(case['x'], float)
     waves = P['xd0'] + case['t'] * np.asarray(case['speeds'])
-    margin = 3.0 * (P['xmax'] - P['xmin']) * 1.3 / P['num_x_pts'] if gen else 1e-6 * case['span']
+    ps = case['pstar']
+    rtol = 2e-3 if gen else 1e-9 + 1e-10 / min(ps, ps * fac(D_P, S))
+    # (wave speeds carry the same relative uncertainty as the states: a point closer to a wave than that may legitimately fall on its other side)
+    margin = 3.0 * (P['xmax'] - P['xmin']) * 1.3 / P['num_x_pts'] if gen else max(1e-6, 3.0 * rtol) * case['span']
     x = x[np.all(np.abs(x[:, None] - waves[None, :]) > margin, axis=1)]
     o.label(case['pattern'])
     if x.size == 0:
         return o
     A = cat.run(case, x=x)
     B = cat.run(dict(case, params=Q), x=x * S[1], t=case['t'] * S[2])
-    ps = case['pstar']
-    rtol = 2e-3 if gen else 1e-9 + 1e-10 / min(ps, ps * fac(D_P, S))
     small = min(min(P['rl'], P['rr']) * min(1.0, fac(D_RHO, S)), min(P['pl'], P['pr'], ps) * min(1.0, fac(D_P, S)))
     acoustic = abs(ps / P['pl'] - 1) < 1e-3 and abs(ps / P['pr'] - 1) < 1e-3
     reg = case['pattern'] + (' tiny-magnitudes' if small < 1e-4 else '') + (' acoustic' if acoustic else '')
